@@ -234,11 +234,13 @@ class GaussianMerge(Compiler):
         """
         for successor_op in successors:
             if get_op_name(successor_op) not in self.gaussian_ops:
-                # If there are no displacement gates.
-                # Add edges from it to successor gates if they act upon the same qumodes
-                if not displacement_mapping:
-                    # Add edge from gaussian transform to successor operation
-                    self.new_DAG.add_edge(gaussian_transform[0], successor_op)
+                # Add edge from gaussian transform to successor operation
+                self.new_DAG.add_edge(gaussian_transform[0], successor_op)
+                # If there are displacement gates on the qumodes the successor acts upon,
+                # the successor operation follows them as well
+                for qumode in get_qumodes_operated_upon(successor_op):
+                    if qumode in displacement_mapping:
+                        self.new_DAG.add_edge(displacement_mapping[qumode], successor_op)
 
     def add_gaussian_pre_and_succ_gates(
         self, gaussian_transform, merged_gaussian_ops, displacement_mapping
